@@ -1,4 +1,5 @@
 import Klepto.Driver.Wrapper
+import Klepto.Driver.Keys
 /-! the driver loop: one JSON object per input line, one JSON object per output line.
 A line with `"op":"cfg"` starts a new trace of the suite named in its `"suite"` field. -/
 namespace Klepto.Driver
@@ -8,6 +9,7 @@ inductive DState
   | idle
   | wrapper (cfg : Cfg) (s : St Nat Nat)
   | cache (c : Cache Nat Nat)
+  | keys (c : KeysCfg)
 
 def badOp (msg : String) : Json := Json.mkObj [("bad-op", Json.str msg)]
 
@@ -21,6 +23,10 @@ def startTrace (j : Json) : DState × Json :=
   | .ok "cache" =>
     match cacheOf j with
     | .ok c => (.cache c, Json.str "ok")
+    | .error e => (.idle, badOp e)
+  | .ok "keys" =>
+    match keysCfgOf j with
+    | .ok c => (.keys c, Json.str "ok")
     | .error e => (.idle, badOp e)
   | .ok s => (.idle, badOp s!"unknown suite {s}")
 
@@ -40,6 +46,10 @@ def stepLine (st : DState) (line : String) : DState × Json :=
         | .ok op =>
           let (s', o) := step cfg s op
           (.wrapper cfg s', Json.mkObj (("out", jOut o) :: jSt s'))
+      | .keys c =>
+        match keysStep c j with
+        | .ok o => (st, o)
+        | .error e => (st, badOp e)
       | .cache c =>
         match cacheOpOf j with
         | .error e => (st, badOp e)
